@@ -401,14 +401,15 @@ class Network(Cached):
             Its diagonal must be zero. Symmetric if the network is undirected.
         """
         # convert to sparse matrix
-        self.sp_A = None
         if not sp.issparse(adjacency):
             adjacency = sp.csc_matrix(np.array(adjacency))
 
-        # ensure square matrix
+        # ensure square matrix (before anything of the old network is
+        # dropped: a refused matrix leaves the network as it was)
         M, N = adjacency.shape
         if M != N:
             raise NetworkError("Adjacency must be square!")
+        self.sp_A = None
         self.N = N
         if N < 32767:
             self.sp_dtype = np.int16
